@@ -46,6 +46,8 @@ pub fn cmd_once(args: &Args) -> J {
     let cases = args.num("cases", 200);
     let gmodel = args.str("gmodel", "/verif/lean/.lake/build/bin/gmodel");
     let mut rng = Rng::new(seed ^ 0x0ce);
+    // keep the injected panics (mode "panic") out of the output
+    std::panic::set_hook(Box::new(|_| {}));
     let mut session = String::new();
     let mut divergences = Vec::new();
     let mut metas: Vec<String> = Vec::new();
@@ -68,7 +70,7 @@ pub fn cmd_once(args: &Args) -> J {
             block.disable_nonce_check = true;
         }
         let expected = world::oracle(&block);
-        let mode = ["sequential", "race", "late"][rng.below(3)];
+        let mode = ["sequential", "race", "late", "panic"][rng.below(4)];
         *mode_hist.entry(mode).or_default() += 1;
         let k = if mode == "sequential" { 3 + rng.below(4) } else { 2 + rng.below(4) };
         let entries: Vec<Entry> = (0..k).map(|_| pick_entry(&mut rng)).collect();
@@ -77,6 +79,19 @@ pub fn cmd_once(args: &Args) -> J {
         let mut db = block.db.clone();
         if mode == "late" {
             db.delay_us = 300;
+        }
+        if mode == "panic" {
+            // the user database panics once, somewhere in the block: the elected call unwinds;
+            // a scheduler that has started must still refuse every later call
+            let mut probe = block.clone();
+            probe.db.log_touched = true;
+            let _ = world::oracle(&probe);
+            let keys: Vec<_> = probe.db.touched.lock().unwrap().iter().cloned().collect();
+            if !keys.is_empty() {
+                db.panic_key = Some(keys[rng.below(keys.len())].clone());
+                db.panic_once = true;
+                db.delay_us = 100;
+            }
         }
         let scheduler = Scheduler::new_with_runtime_config(
             block.cfg(),
@@ -105,6 +120,13 @@ pub fn cmd_once(args: &Args) -> J {
             "sequential" => {
                 for (t, e) in entries.iter().enumerate() {
                     let r = call(*e);
+                    results.lock().unwrap().push((t, r));
+                }
+            }
+            "panic" => {
+                for (t, e) in entries.iter().enumerate() {
+                    let r = std::panic::catch_unwind(std::panic::AssertUnwindSafe(|| call(*e)))
+                        .unwrap_or_else(|_| Err((usize::MAX, "panicked (injected database panic reached the caller)".to_owned())));
                     results.lock().unwrap().push((t, r));
                 }
             }
@@ -164,6 +186,9 @@ pub fn cmd_once(args: &Args) -> J {
         let mut problem = None;
         if winners.len() != 1 {
             problem = Some(format!("{} of {k} calls were elected (results in completion order: {:?})", winners.len(), results));
+        } else if mode == "panic" && winners[0].1.as_ref().is_err_and(|(_, m)| m.starts_with("panicked")) {
+            // the elected call unwound: nothing to compare, the block was cut short
+            let _ = bundle;
         } else {
             let actual = RunResult { outcomes: outcomes.clone(), status: winners[0].1.clone(), bundle };
             if let Some(d) = world::compare_runs(&expected, &actual) {
@@ -193,7 +218,9 @@ pub fn cmd_once(args: &Args) -> J {
             Some(99)
         };
         if let Some(a) = applied {
-            session.push_str(&format!("applied {a}\n"));
+            if mode != "panic" {
+                session.push_str(&format!("applied {a}\n"));
+            }
         }
         session.push_str("end\n");
         if samples.len() < 2 {
